@@ -1,4 +1,5 @@
 import MobiusModel.Transfers
+import MobiusModel.Generated.Consts
 /-!
   C09 — Uploads are exact, published atomically, resumable after any cut.
 
@@ -128,6 +129,13 @@ theorem download_returns_upload (h : ClientOK fc i d r) (cuts : List Nat) (x : B
   have hisz : f.effInfo.size < 4294967296 := by simp only [StoredFile.hdrLen] at hs; omega
   rw [splitDownload_header _ _ _ _ f.data.length hfw hisz (by simp)]
   rw [List.take_left' rfl, List.drop_left' rfl, hd, hxd]
+
+/-! Obligations over the constants regenerated from /repo's source on every run. -/
+
+/-- The partial file's name is the final name plus this suffix (the model's `inc` component). -/
+theorem generated_incomplete_suffix :
+    Generated.stringConsts.lookup "IncompleteFileSuffix" = some ".incomplete" ∧
+    Generated.miscConsts.lookup "FileUpload" = some 1 := by decide
 
 -- ---------------------------------------------------------------- non-vacuity
 
